@@ -122,6 +122,7 @@ package ext
 
 //@ func readBodyIdentity(r, maxBodySize, dst) res, err
 //@   props C03, C11
+//@   unreachable-return 1 :: Peek(nn) with nn <= Len() cannot fail under the reader model (it asks for bytes that are already buffered)
 //@   requires r != nil && 0 < maxBodySize && maxBodySize <= 70368744177664 && r.avail >= 0
 //@   modifies r.pos, r.avail, r.failed, mem
 //@   allocates
@@ -193,7 +194,7 @@ package ext
 //@   modifies s._all, mem
 //@   ensures r ==> hsInv(s)
 //@   ensures r ==> sameArray(s.Key, s.B) && sameArray(s.Value, s.B)
-//@   ensures s.HLen + len(s.B) == old(s.HLen + len(s.B))
+//@   ensures s.HLen + len(s.B) == old(s.HLen + len(s.B)) && s.HLen >= old(s.HLen)
 //@   unreachable-return 6 :: the length check after the continuation-line loop is defensive: n is the index of a line feed inside the window on every path into it
 //@   assert after normalizeHeaderValue#0: off(result1) == off(s.B) && len(result1) == len(s.B)
 //@   top-ensures @C02 sameArray(s.B, old(s.B)) && off(s.B) >= off(old(s.B)) && off(s.B) + len(s.B) == off(old(s.B)) + len(old(s.B))
@@ -252,4 +253,3 @@ package ext
 //@   ensures err == nil ==> 0 <= n && n <= len(buf)
 //@   loop 0:
 //@     invariant hsInv(s) && s.HLen + len(s.B) <= len(old(buf))
-
